@@ -112,12 +112,20 @@ Blocks:
 			spec.Params = append(spec.Params, function.Parameter{
 				Name: paramName,
 				Type: cty.DynamicPseudoType,
+
+				// The body is an HCL expression, which deals with marks
+				// itself. Handing it the arguments unmarked would let its
+				// diagnostics, which become the error of the call, quote
+				// the content of a marked argument.
+				AllowMarked: true,
 			})
 		}
 		if varParamExpr != nil {
 			spec.VarParam = &function.Parameter{
 				Name: varParam,
 				Type: cty.DynamicPseudoType,
+
+				AllowMarked: true,
 			}
 		}
 		impl := func(args []cty.Value) (cty.Value, error) {
